@@ -283,9 +283,12 @@ class Context(object):
             wou = self.warnOnUnrecognized
             self.warnOnUnrecognized = False
             for key, value in list(data.items()):
-                n = self[value.get('macroName', 'Macro')]()
-                n.restore(value)
-                self.labels[key] = n
+                try:
+                    n = self[value.get('macroName', 'Macro')]()
+                    n.restore(value)
+                    self.labels[key] = n
+                except Exception as msg:
+                    log.warning('Could not load auxiliary information for %s. (%s)' % (key, msg))
             self.warnOnUnrecognized = wou
         except Exception as msg:
             log.warning('Could not load auxiliary information. (%s)' % msg)
